@@ -8,7 +8,7 @@ ASSUMPTIONS = [
     "the quantifier is the committed list harness/pvh/data/elitist.json: classes whose step skeleton the translator proves monotone (table obligation T17) plus classes reviewed by hand as structurally elitist whose skeleton is partly opaque (correspondence only, named in the evidence)",
     "costs are NaN-free (a NaN cost leaves the order model; such runs are counted and skipped)",
 ]
-MODULES = ["PvModel.Props.C17", "PvModel.Props.T17"]
+MODULES = ["PvModel.Props.C17", "PvModel.Props.T17", "PvModel.Props.R10", "PvModel.Props.R16"]
 
 
 def elitist():
